@@ -94,7 +94,6 @@ def parseProgram (s : String) : Option (List (List Code)) :=
 def showOutcome : Outcome → String
   | .ok v => s!"ok {v}"
   | .error e => s!"error {e}"
-  | .handlerNotAFunction => "bad-handler"
   | .panic => "panic"
   | .outOfFuel => "out-of-fuel"
 
